@@ -30,7 +30,7 @@ type c15conn struct {
 	dialPort int // the target port this connection's own dial goes to (0: none expected)
 }
 
-var c15causes = []string{"ok", "ok", "cipher", "cipher-idle", "replay-client", "replay-server", "bad-address", "private-address", "connect-fail", "relay-client", "relay-target", "client-abort"}
+var c15causes = []string{"ok", "ok", "cipher", "cipher-idle", "replay-client", "replay-server", "bad-address", "private-address", "connect-fail", "relay-client", "relay-target", "client-abort", "cipher-abort"}
 
 func runC15(rc *RunCtx) {
 	G := rc.G
@@ -42,7 +42,7 @@ func runC15(rc *RunCtx) {
 	// server-salt marking needs a salt of at least 20 bytes
 	prom := newPromMetricsWith(rc, nil)
 	m := &RecMetrics{Inner: prom}
-	srv := startTCPServer(rc, w, tcpServerOpts{Keys: keys, Replay: 200, Timeout: time.Second, Metrics: m})
+	srv := startTCPServer(rc, w, tcpServerOpts{Keys: keys, Replay: 200, Timeout: time.Second, Metrics: m, Debug: rc.F.Draw(3) == 1})
 	rc.PostData = m
 	if rc.F.Draw(3) == 1 {
 		w.Window = []int{700, 3000}[rc.F.Draw(2)]
@@ -140,6 +140,15 @@ func runC15(rc *RunCtx) {
 					writeSegmented(G, c.c, payload(G, G.Draw(300)), 3)
 					readAll(c.c)
 					c.c.Close()
+				case "cipher-abort":
+					// a prober that resets its connection while the server is absorbing it:
+					// authentication failed all the same, and that is what gets reported
+					c.want, c.probe = "ERR_CIPHER", true
+					c.c = dial()
+					writeSegmented(G, c.c, payload(G, 50+G.Draw(300)), 3)
+					simrt.Sleep(time.Duration(1+G.Draw(300)) * time.Millisecond)
+					c.c.Abort()
+					simrt.Fault("prober_rst_while_absorbed")
 				case "replay-client":
 					// first presentation is a normal, separate connection
 					cleanTarget()
@@ -402,7 +411,7 @@ func runC15x(rc *RunCtx) {
 	w := simnet.NewWorld()
 	keys := genKeys(G, 1+G.Draw(3), "")
 	m := &RecMetrics{Inner: newPromMetricsWith(rc, nil)}
-	srv := startTCPServer(rc, w, tcpServerOpts{Keys: keys, Replay: 0, Timeout: 200 * time.Millisecond, Metrics: m, UseSvc: G.Draw(2) == 0})
+	srv := startTCPServer(rc, w, tcpServerOpts{Keys: keys, Replay: 0, Timeout: 200 * time.Millisecond, Metrics: m, UseSvc: G.Draw(2) == 0, Debug: rc.F.Draw(3) == 1})
 	tgtIP := net.IPv4(93, 184, 216, 34).To4()
 	startTarget(w, tgtIP, 7000, func(tc *targetConn) {
 		buf := make([]byte, 4096)
